@@ -49,8 +49,22 @@ def r1_purge_guard(ctx):
             # only resets to an empty list are accepted without a guard
             asg = next((a for a in walk_scope(fi.node) if isinstance(a, ast.Assign) and n in a.targets), None)
             v = asg.value if asg is not None else None
-            if isinstance(v, ast.List) and not v.elts:
-                ctx.ok("C04.R1", loc(fi, n), "store to purging_queue is a reset to []", nontrivial=False)
+            def _shrinks(e):
+                """the stored value holds nothing that was not queued already: [], list(), a slice / filter of the queue itself, or a choice of those"""
+                if isinstance(e, ast.List) and not e.elts:
+                    return True
+                if isinstance(e, ast.Call) and isinstance(e.func, ast.Name) and e.func.id == "list" and not e.args and not e.keywords:
+                    return True
+                if isinstance(e, ast.Subscript) and isinstance(e.slice, ast.Slice) and isinstance(e.value, ast.Attribute) and e.value.attr == "purging_queue":
+                    return True
+                if isinstance(e, ast.IfExp):
+                    return _shrinks(e.body) and _shrinks(e.orelse)
+                if isinstance(e, ast.ListComp) and len(e.generators) == 1 and isinstance(e.generators[0].iter, ast.Attribute) and e.generators[0].iter.attr == "purging_queue" \
+                        and isinstance(e.elt, ast.Name) and isinstance(e.generators[0].target, ast.Name) and e.elt.id == e.generators[0].target.id:
+                    return True
+                return False
+            if v is not None and _shrinks(v):
+                ctx.ok("C04.R1", loc(fi, n), "store to purging_queue only drops entries (reset / slice / filter of the queue itself)", nontrivial=False)
             else:
                 ctx.undecided("C04.R1", loc(fi, n), f"store to purging_queue of a non-literal value: {unparse(asg) if asg else '?'}")
         elif kind in ("aug", "substore", "submutcall"):
